@@ -12,8 +12,8 @@ import (
 var multiLineFeedRegex = regexp.MustCompile(`\n{3,}`)
 var replace = "\n\n"
 
-// An empty line in front of a declaration property, or in front of its first leading comment, starts a new group of properties.
-// The formatter prints the empty line in front of the comment, so the next formatting has to see the same groups.
+// An empty line in front of a statement or declaration property, or in front of its first leading comment, starts a new group of lines.
+// The formatter may print the empty line in front of the comment, so the next formatting has to see the same groups.
 func startsGroup(m *ast.Meta) bool {
 	if m.PreviousEmptyLines > 0 {
 		return true
